@@ -262,7 +262,7 @@ class Check:
             if old["key"] == key:
                 old["count"] += 1
                 return
-        d = os.path.join(VERIF, "replays", self.prop, "%d" % self.replay_n)
+        d = os.path.join(os.environ.get("VERIF_REPLAY_DIR") or os.path.join(VERIF, "replays"), self.prop, "%d" % self.replay_n)
         self.replay_n += 1
         shutil.rmtree(d, ignore_errors=True)
         os.makedirs(os.path.join(d, "cases"))
@@ -354,8 +354,9 @@ echo "not reproduced"; exit 0
         cov.update(self.extra)
         ev = {"property_id": self.prop, "tier": self.tier, "seed": self.seed, "level": self.level, "coverage": cov,
               "assumptions": self.assumptions + sorted(stubs), "wall_s": round(wall, 2), "violations": len(self.violations)}
-        os.makedirs(os.path.join(VERIF, "evidence"), exist_ok=True)
-        json.dump(ev, open(os.path.join(VERIF, "evidence", self.prop + ".json"), "w"), indent=1)
+        evdir = os.environ.get("VERIF_EVIDENCE_DIR") or os.path.join(VERIF, "evidence")
+        os.makedirs(evdir, exist_ok=True)
+        json.dump(ev, open(os.path.join(evdir, self.prop + ".json"), "w"), indent=1)
         self.scratch.cleanup()
         for k in self.known_hits:
             print("KNOWN-FINDING: property=%s %s" % (self.prop, k.get("what", k["key"])))
